@@ -43,7 +43,10 @@ func (w *World) c07Packets(full bool) []Pkt {
 		{"icahost", "channel-7", "transfer", "channel-0"}, {"transfer", "channel-7", "transfer", "channel-5"},
 		// our own end under identifiers ICS-24 accepts (up to 64 characters) but ibc-go never generates: leading zeros, longer
 		// than the 32 characters orbiter allows for a counterparty identifier (only a hand-written genesis can create them)
-		{"transfer", "channel-7", "transfer", "channel-0000000000000000000000000001"}, {"transfer", "channel-7", "transfer", "channel-007"}}
+		{"transfer", "channel-7", "transfer", "channel-0000000000000000000000000001"}, {"transfer", "channel-7", "transfer", "channel-007"},
+		// our own end named as no ibc-go chain names a channel (hunt H15). A source end WITHOUT names is not in the menu: it is
+		// not a packet (channeltypes.Packet.ValidateBasic, which IBC core applies before any application is called, refuses it)
+		{"transfer", "channel-7", "transfer", "mychannel-0"}}
 	mk := func(c chans, co coin, rcv, memo, sender string) Pkt {
 		return Pkt{SrcPort: c.sp, SrcChan: c.sc, DstPort: c.dp, DstChan: c.dc, Denom: co.denom, Amount: co.amt, Sender: sender, Receiver: rcv, Memo: memo}
 	}
